@@ -14,7 +14,7 @@ EXPLANATION = ("Static analysis: for every memory-based (and virtual) view kind 
                "is_1d_traversable <=> row bytes == width*pixel step are decided the same way. Not decided: row carry of the "
                "1-D iterator for arbitrary offsets, bit-offset carries of bit-aligned iterators as values, reverse iterators.")
 
-QUICK = ["k_inter", "k_planar", "k_planar16", "k_xystep", "k_pT", "k_packed", "k_bits7", "k_nth", "k_deref", "k_virt"]
+QUICK = ["k_inter", "k_planar", "k_planar16", "k_xystep", "k_pT", "k_packed", "k_bits7", "k_nth", "k_deref", "k_derefs", "k_virt"]
 W = "include/boost/gil/"
 P2 = "std::ptrdiff_t x, std::ptrdiff_t y, std::ptrdiff_t dx, std::ptrdiff_t dy, std::ptrdiff_t n, std::ptrdiff_t m"
 
